@@ -269,10 +269,89 @@ def run_reuse(task):
     return out
 
 
+def run_light(task):
+    """the core clauses with five calls (used for the special inputs and along the size axis): seeded call leaves both global
+    generators alone, same seed twice identical, int seed == RandomState(int), unseeded reproducible after np.random.seed"""
+    import time
+    bct = import_bct()
+    name = task['function']
+    f = getattr(bct, name)
+    kw = ei.build(name, f, task['kind'], np.random.RandomState(task['bseed']), None, n=task.get('n'))
+    out = {'task': task, 'fails': [], 'status': 'ok', 'calls': 0, 'local_draws': -1, 'light': True, 'secs': 0.0}
+    if kw is None:
+        out['status'] = 'nobuild'
+        return out
+    if task.get('n') and 'itr' in kw:
+        kw['itr'] = 1
+    s, T = task['seed'], task.get('t', T_CALL)
+    what = '%s(<%s%s arguments, builder seed %d>, seed=%d)' % (name, task['kind'], (' n=%d' % task['n']) if task.get('n') else '', task['bseed'], s)
+
+    def go(seed, gstate=None, retry=0):
+        def attempt():
+            k = ei.deep_copy(kw)
+            if seed is not None:
+                k['seed'] = seed() if callable(seed) else seed
+            if gstate is not None:
+                np.random.seed(gstate)
+            return f(**k)
+        out['calls'] += 1
+        return call(attempt, t=T, retry=retry)
+    np.random.seed(task['prior'][0])
+    np.random.rand(task['prior'][1])
+    pyrandom.seed(task['prior'][2])
+    np0, py0 = np.random.get_state(), pyrandom.getstate()
+    t0 = time.time()
+    r1 = go(s)
+    out['secs'] = time.time() - t0
+    out['status'] = r1[0] if r1[0] != 'exc' else 'exc:' + exc_kind(r1[1])
+    if not _state_equal(np0, np.random.get_state()):
+        out['fails'].append(('numpy-global-state-unchanged', 'np.random.get_state() differs after ' + what))
+    if py0 != pyrandom.getstate():
+        out['fails'].append(('python-random-state-unchanged', 'random.getstate() differs after ' + what))
+    if r1[0] == 'timeout':
+        return out
+    r2 = go(s, retry=5)
+    if not _res_equal(r1, r2):
+        out['fails'].append(('same-seed-identical', 'two calls differ (%s vs %s): %s' % (r1[0], r2[0], what)))
+    if 0 <= s < 2 ** 32:
+        r3 = go(lambda: np.random.RandomState(s), retry=5)
+        if not _res_equal(r1, r3):
+            out['fails'].append(('int-seed-equals-RandomState', 'seed=%d vs seed=RandomState(%d) differ (%s vs %s): %s' % (s, s, r1[0], r3[0], what)))
+    u1 = go(None, gstate=task['useed'])
+    npa = np.random.get_state()
+    u2 = go(None, gstate=task['useed'])
+    if u1[0] != 'timeout' and u2[0] != 'timeout':
+        if not _res_equal(u1, u2):
+            out['fails'].append(('unseeded-reproducible-after-np-seed', 'np.random.seed(%d); unseeded %s twice differ' % (task['useed'], what)))
+        elif not _state_equal(npa, np.random.get_state()):
+            out['fails'].append(('unseeded-reproducible-after-np-seed', 'global generator ends in different states after identical unseeded calls: ' + what))
+    return out
+
+
+SIZES = (12, 33, 65, 130, 220, 260)
+
+
+def run_sizes(task):
+    """SIZE AXIS: the light clause set on n = 12, 33, 65, 130, 220, 260 nodes, ascending, until a call gets expensive"""
+    outs, spent = [], 0.0
+    for n in SIZES:
+        o = run_light(dict(task, n=n, t=task['budget']))
+        outs.append(o)
+        spent += o['secs']
+        if o['status'] in ('timeout', 'nobuild') or o['secs'] > 0.5 * task['budget'] or spent > task['budget']:
+            break
+    return outs
+
+
 def dispatch(task):
-    if task.get('mode') == 'reuse':
-        return run_reuse(task)
-    return run_task(task)
+    m = task.get('mode')
+    if m == 'reuse':
+        return [run_reuse(task)]
+    if m == 'light':
+        return [run_light(task)]
+    if m == 'sizes':
+        return run_sizes(task)
+    return [run_task(task)]
 
 
 def _variants(kw, rs, cap):
@@ -515,9 +594,23 @@ def main():
                         'prior': [int(ck.rs.randint(2 ** 31)), int(ck.rs.randint(0, 50)), int(ck.rs.randint(2 ** 31)), int(ck.rs.randint(0, 50))],
                         'useed': int(ck.rs.randint(2 ** 31))})
     tasks = tasks + reuse
-    if not ck.replay:       # never group by routine: every worker interleaves routines, flavours and modes
+    if not ck.replay:
+        def _t(name, kind, mode, **k):
+            return dict({'mode': mode, 'function': name, 'kind': kind, 'bseed': int(ck.rs.randint(2 ** 31)), 'seed': int(ck.rs.randint(2 ** 31)),
+                         'prior': [int(ck.rs.randint(2 ** 31)), int(ck.rs.randint(0, 50)), int(ck.rs.randint(2 ** 31)), 0],
+                         'useed': int(ck.rs.randint(2 ** 31))}, **k)
+        for name in seedful:
+            # special inputs: edgeless float / int / bool, single node, -0.0 zeros, dyadic row-stochastic, float32
+            for kind in ei.SPECIAL_KINDS:
+                for _ in range(1 if ck.tier == 'quick' else 4):
+                    tasks.append(_t(name, kind, 'light'))
+            # size axis
+            for kind in ((('und', 'dir')[int(ck.rs.randint(2))],) if ck.tier == 'quick' else ('und', 'dir', 'bin', 'signed', 'int')):
+                for _ in range(1 if ck.tier == 'quick' else 2):
+                    tasks.append(_t(name, kind, 'sizes', budget=2.0 if ck.tier == 'quick' else 25.0))
+        # never group by routine: every worker interleaves routines, flavours, sizes and modes
         tasks = [tasks[int(i)] for i in ck.rs.permutation(len(tasks))]
-    results = pmap(dispatch, tasks) + [run_task(t) for t in par] + hist_results
+    results = [o for outs in pmap(dispatch, tasks) for o in outs] + [run_task(t) for t in par] + hist_results
     hd = has_draw(res)
     seen_draw, ran = {}, {}
     for r in results:
@@ -529,6 +622,11 @@ def main():
             ck.count('history_sequences (fresh process; X, other calls, X)')
         if r.get('reuse'):
             ck.count('reuse_probes')
+        if r.get('light'):
+            ck.count('light_tasks (special inputs / size axis)')
+        if t.get('n'):
+            ck.count('n=%d' % t['n'])
+        ck.count('kind:' + t['kind'])
         if r['status'] in ('timeout', 'nobuild'):
             ck.count(r['status'] + ':' + fn)
         ran.setdefault(fn, 0)
@@ -538,9 +636,9 @@ def main():
         ck.count('seed_in_range' if 0 <= t['seed'] < 2 ** 32 else 'seed_out_of_range')
         nt = r['status'] == 'ok' and r.get('local_draws', 0) != 0
         ck.case(sample={'function': fn, 'kind': t['kind'], 'seed': t['seed'], 'local_draws': r.get('local_draws')} if nt else None,
-                nontrivial_key=digest([fn, t['kind'], t['bseed'], t['seed']]) if nt else None)
+                nontrivial_key=digest([fn, t['kind'], t['bseed'], t['seed'], t.get('n'), t.get('mode')]) if nt else None)
         for pred, info in r['fails']:
-            ck.violation(fn, pred, {'task': t, 'info': info, 'status': r['status']}, {'kind': t['kind']})
+            ck.violation(fn, pred, {'task': {k: v for k, v in t.items() if k != 'budget' and not (k == 'mode' and v == 'sizes')} if not t.get('n') else dict({k: v for k, v in t.items() if k not in ('budget', 't')}, mode='light'), 'info': info, 'status': r['status']}, {'kind': t['kind']})
     never = sorted(fn for fn, n in ran.items() if n == 0)
     ck.dist['functions_exercised'] = len(ran)
     ck.dist['not_exercised'] = dict(NOT_EXERCISED)
